@@ -9,8 +9,16 @@ MIX = "yield,send,recv,lock,unlock,acq,rel"
 JCC3 = "yield,bwait,bpost,join+1,join+2,cancel+1,cancel+2"
 JCC2 = "yield,bwait,bpost,join+1,cancel+1,createY,createW,joinc,cancelc"
 JCCF = "yield,bwait,bpost,join+1,join+2,cancel+1,cancel+2,createY,createW,joinc,cancelc"
+CONDX = "yield,cadd,cw,cpost1,cpost2"                 # add() and wait() as separate steps (posts between them, add() during a wait)
+CONDE = "yield,cadd1,cadd2,cw,cpost1,cpost2"          # one-element and incrementally built condition sets
+MU4 = "yield,crit"                                    # crit = lock, yield, unlock: four routines contending with one-step scripts
+MUJC = "yield,lock,unlock,join+1,cancel+1,cancel+0"   # routine-issued join / cancel (also of itself) around mutex waiters
+JCCS = "yield,createS,resumec,joinc,cancelc"          # children created suspended (run_now = false), resumed / joined / cancelled by their parent
 
-# (tag, alphabet, routines, max script length, max main-context actions (resume/cancel/cleanup) per run, param, processes[, max total steps])
+# (tag, alphabet, routines, max script length, max main-context actions per run, param, processes[, max total steps (0 = no bound)[, flags]])
+# main-context actions: resume(r) / cancel(r) / cleanup, and - when the alphabet has the consuming op (recv / acq / bwait / cwait|cw) - the
+# main context also produces: channel send / semaphore release / broadcast post / condition post(1|2)   (flag "nomain" turns that off).
+# The first mid-run cleanup is followed by a second session on the same Scheduler and primitives (flag "noreuse" turns that off).
 # param: initial semaphore count; for Condition 0 = Logic::kAll, 1 = Logic::kAny
 QUICK = [
     ("ch", CH, 3, 3, 1, 0, 2, 6), ("mu", MU, 3, 3, 1, 0, 2, 6), ("sem0", SEM, 3, 3, 1, 0, 2, 6), ("sem1", SEM, 3, 3, 1, 1, 2, 6), ("bc", BC, 3, 3, 1, 0, 2, 6),
@@ -20,6 +28,10 @@ QUICK = [
     ("condAll-2r-2acts", COND, 2, 2, 2, 0, 1), ("condAny-2r-2acts", COND, 2, 2, 2, 1, 1),
     ("mix", MIX, 3, 2, 0, 0, 4), ("mix-1act", MIX, 3, 2, 1, 0, 1, 3), ("mix-2r", MIX, 2, 2, 1, 0, 1),
     ("jcc3", JCC3, 3, 2, 1, 0, 6, 4), ("jcc2", JCC2, 2, 2, 1, 0, 2), ("jcc2-2acts", JCC2, 2, 2, 2, 0, 4, 3),
+    ("condAll-split", CONDX, 2, 3, 1, 0, 2, 5), ("condAny-split", CONDX, 2, 3, 1, 1, 2, 5), ("condAll-split-0act", CONDX, 2, 3, 0, 0, 1), ("condAny-split-0act", CONDX, 2, 3, 0, 1, 1),
+    ("condAll-split-3r", CONDX, 3, 2, 1, 0, 2, 4), ("condAll-elem", CONDE, 2, 3, 0, 0, 2), ("condAny-elem", CONDE, 2, 3, 0, 1, 2), ("condAll-elem-1act", CONDE, 2, 2, 1, 0, 1),
+    ("ch-3acts", CH, 3, 1, 3, 0, 4), ("sem-3acts", SEM, 3, 1, 3, 0, 4), ("mu-4r", MU4, 4, 2, 1, 0, 2), ("mu-4r-2acts", MU4, 4, 1, 2, 0, 2),
+    ("mujc", MUJC, 3, 2, 1, 0, 4, 4), ("jccs", JCCS, 2, 3, 1, 0, 2, 4),
 ]
 THOROUGH = [
     # scripts of <= 4 steps: every program without main-context action; one action for programs of <= 8 (7) steps in total
@@ -34,19 +46,29 @@ THOROUGH = [
     ("mix", MIX, 3, 2, 1, 0, 32), ("mix-2r", MIX, 2, 3, 1, 0, 16), ("jcc3", JCC3, 3, 2, 1, 0, 32), ("jcc3-2acts", JCC3, 3, 2, 2, 0, 8, 3),
     ("jccf", JCCF, 3, 2, 1, 0, 16, 4), ("jccf-0act", JCCF, 3, 2, 0, 0, 8, 5),
     ("jcc2", JCC2, 2, 3, 1, 0, 16, 5), ("jcc2-2acts", JCC2, 2, 2, 2, 0, 16),
+    # add() / wait() as separate steps, one-element sets
+    ("condAll-split", CONDX, 2, 3, 1, 0, 8), ("condAny-split", CONDX, 2, 3, 1, 1, 8), ("condAll-split-2acts", CONDX, 2, 3, 2, 0, 16), ("condAny-split-2acts", CONDX, 2, 3, 2, 1, 16),
+    ("condAll-split-3r", CONDX, 3, 2, 1, 0, 8), ("condAny-split-3r", CONDX, 3, 2, 1, 1, 8),
+    ("condAll-elem", CONDE, 2, 3, 1, 0, 16), ("condAny-elem", CONDE, 2, 3, 1, 1, 16), ("condAll-elem-3r", CONDE, 3, 2, 0, 0, 4),
+    # three main-context actions on small programs (queue of three waiters, then wake / cancel chains), four routines on one mutex
+    ("ch-3acts", CH, 3, 2, 3, 0, 16, 4), ("sem-3acts", SEM, 3, 2, 3, 0, 16, 4), ("mu-4r", MU4, 4, 2, 1, 0, 4), ("mu-4r-2acts", MU4, 4, 2, 2, 0, 16),
+    ("mu-4r-full", MU + ",crit", 4, 2, 1, 0, 16, 6),
+    # routine-issued join / cancel / self-cancel around mutex waiters; children created suspended
+    ("mujc", MUJC, 3, 2, 1, 0, 16), ("mujc-2acts", MUJC, 3, 2, 2, 0, 16, 4), ("jccs", JCCS, 2, 3, 1, 0, 8), ("jccs-3r", JCCS, 3, 2, 1, 0, 8, 4),
 ]
 ASAN_INFO = [("asan-ch", CH, 3, 2, 1, 0, 2, 4), ("asan-mu", MU, 3, 3, 0, 0, 2, 6), ("asan-sem", SEM, 3, 2, 1, 0, 2, 4), ("asan-bc", BC, 3, 2, 1, 0, 2, 4),
-             ("asan-cond", COND, 3, 2, 0, 0, 2), ("asan-jcc2", JCC2, 2, 2, 1, 0, 2, 3)]
+             ("asan-cond", COND, 3, 2, 0, 0, 2), ("asan-jcc2", JCC2, 2, 2, 1, 0, 2, 3), ("asan-cond-split", CONDX, 2, 2, 1, 0, 1), ("asan-jccs", JCCS, 2, 2, 1, 0, 1)]
 
 def cmds(exe, cfgs, only):
     out = []
     for c in cfgs:
         tag, ops, nr, ln, acts, param, nproc = c[:7]
-        tot = c[7] if len(c) > 7 else nr * ln
+        tot = c[7] if len(c) > 7 and c[7] else nr * ln
+        flags = c[8] if len(c) > 8 else "-"
         if only and tag != only:
             continue
         for p in range(nproc):
-            out.append(("%s:%d/%d" % (tag, p, nproc), [exe, "enum", tag, ops, str(nr), str(ln), str(acts), str(param), str(p), str(nproc), str(tot)]))
+            out.append(("%s:%d/%d" % (tag, p, nproc), [exe, "enum", tag, ops, str(nr), str(ln), str(acts), str(param), str(p), str(nproc), str(tot), flags]))
     return out
 
 def main(tier, args):
@@ -75,18 +97,29 @@ def main(tier, args):
         for e in info.errors[:3]:
             res.infos.append("asan-build harness error (ignored for the verdict): " + e[:300])
     res.infos.append("wall: build %.1fs, plain enumeration %.1fs, asan information run %.1fs" % (t_build, t_plain, time.time() - t0 - t_build - t_plain))
-    desc = "; ".join("%s{%s} nr=%d len<=%d acts<=%d param=%d" % c[:6] + (" total<=%d" % c[7] if len(c) > 7 else "") for c in cfgs)
+    desc = "; ".join("%s{%s} nr=%d len<=%d acts<=%d param=%d" % c[:6] + (" total<=%d" % c[7] if len(c) > 7 and c[7] else "") for c in cfgs)
     vf.finish(PID, tier, res, t0,
-              rule="every program of <=3 routines x every script of <= len ops over the family alphabet (families enumerated exhaustively: " + desc + ") "
-                   "x every main-context schedule (scheduler rounds until no routine is ready, with up to `acts` resume(r)/cancel(r)/cleanup actions placed before every scheduler round and at idle, "
-                   "final cleanup()), each run on a real epoll Loop (kForever; one loop per program, replaced whenever a run leaves a deferred call queued) + fresh Scheduler + Channel/Mutex/Semaphore/Broadcast/Condition; "
+              rule="every program of nr (<=3, mu-4r families: 4) routines x every script of <= len ops over the family alphabet (families enumerated exhaustively: " + desc + ") "
+                   "x every main-context schedule (scheduler rounds until no routine is ready, with up to `acts` actions placed before every scheduler round and at idle: resume(r) / cancel(r) / cleanup and, "
+                   "in families whose alphabet has the consuming op, a channel send / semaphore release / broadcast post / condition post(1|2) issued by the main context; "
+                   "the first mid-run cleanup() is followed by a second session - the program's routines are created again on the same Scheduler and the same primitives, whose left-over values / units / holder the reference model carries over - "
+                   "and the schedule continues; final cleanup()), each run on a real epoll Loop (kForever; one loop per program, replaced whenever a run leaves a deferred call queued) + fresh Scheduler + Channel/Mutex/Semaphore/Broadcast/Condition; "
+                   "ops: yield, send, recv, lock, unlock, crit (= lock, yield, unlock), acq, rel, bwait, bpost, cwait (= add 1, add 2, wait), cadd/cadd1/cadd2 (add only), cw (wait only), cpost1/2, join/cancel of the next routines, cancel of itself, "
+                   "create of a child (ready, or suspended with run_now=false), resume/join/cancel of the child; "
                    "oracle = reference model (FIFO exactly-once, one holder, acquisitions<=releases+initial) after every pass, lost-wake-up invariants whenever ready queue is empty "
-                   "(private state read with -fno-access-control), cancel/cleanup termination with failure, join liveness and safety; "
+                   "(free / non-empty / positive / posted / satisfied decided by the reference model; private state read with -fno-access-control only to find the ready queue and to cross-check), "
+                   "cancel/cleanup termination with failure, failure only after cancel/cleanup for recv/lock/acquire/broadcast-wait, join liveness and safety; "
                    "states = distinct canonical idle states (summed per process), executions = program x schedule runs",
               assumptions=["verdict from the plain (uninstrumented) build; the ASan/UBSan build is run on a sub-space and reported as information only (ASan + swapcontext false-positive warning on this image)",
                            "the Scheduler is given a forwarding proxy of the real Loop that only inserts the main context's step in front of each deferred Scheduler::schedule call (runLoop(kOnce) would drain all deferred calls, i.e. run the scheduler to idle, and hide every intermediate point)",
                            "routine stacks are 64 KiB instead of the 8 KiB default (stack size is not part of the property)",
                            "routines leave on any failed blocking call and release a mutex they hold on that path (as Mutex::Locker does)",
-                           "child routines made by a `create` step run a fixed one-step script (yield or broadcast-wait); at most 2 children per run",
-                           "Condition: one waiter at a time adds conditions {1,2} then waits (documented single-waiter use); logic kAll and kAny",
+                           "child routines made by a `create` step run a fixed one-step script (yield or broadcast-wait; a child created suspended runs [yield]); at most 2 children per session",
+                           "a routine created with run_now=false has to start only after somebody resumed or cancelled it; once that happened it must have started (and, if cancelled, terminated) by the next idle point",
+                           "Condition: values {1,2}, logic kAll and kAny, one waiter at a time (documented single-waiter use); the reference set is built by add() and reduced by post() whether or not a routine is waiting yet "
+                           "(a value posted between add() and wait() has happened); the lost-wake-up clause is judged only for a routine that was suspended in wait() at the moment of the post that satisfied the set; "
+                           "a wait() that is refused at once (second waiter, empty set, or after a cancelled wait) is not judged and leaves the reference set unchanged",
+                           "reading: failure is what the statement assigns to cancel/cleanup, so a recv / lock / acquire / broadcast-wait that reports failure to a routine nobody cancelled is reported "
+                           "(the routine has lost the value / mutex / unit / broadcast it was queued for); join and Condition::wait refuse a second joiner / waiter by design and are not judged that way",
+                           "second session: after the first mid-run cleanup() nothing is re-initialised - values left in the channel, semaphore units and a mutex still held by a routine that ended without unlock() stay, in the model and in the code alike",
                            "main-context resume(r) of a routine blocked in Broadcast/Condition wait is not judged (the statement only forbids lost wake-ups there); for join it is judged (join must not report success before the target finished)"])
